@@ -1,0 +1,5 @@
+//go:build !verif
+
+package health
+
+func verifProberStopped(_ *Prober) {}
